@@ -6,6 +6,7 @@ import (
 
 	"github.com/paulmach/osm"
 
+	"verif/internal/eq"
 	"verif/internal/fw"
 	"verif/internal/gen"
 	"verif/internal/mon"
@@ -300,6 +301,10 @@ func c01Exec(c fw.Case) *fw.Result {
 			// metadata at the ends of their types, very long strings and lists, duplicate keys
 			pbfw.Wilden(r, f, 0.25)
 		}
+		if c.Int("profile") == 5 {
+			// every block followed by a structural twin with different values (or an exact copy)
+			pbfw.TwinBlocks(r, f, func(b *pbfw.Block) *pbfw.Block { return eq.Clone(b) })
+		}
 		if c.Int("noheader") == 1 {
 			f.Header = nil
 		}
@@ -412,6 +417,9 @@ func c01Profile(i int) int64 {
 	if i%5 == 4 {
 		return 4 // unusual-but-valid values
 	}
+	if i%10 == 3 {
+		return 5 // twin blocks
+	}
 	return int64(i % 5 % 3)
 }
 
@@ -427,7 +435,7 @@ func init() {
 		ID:    "C01",
 		Level: "exploration",
 		Rule: "files written by the independent PBF writer: (a) systematic present/absent toggles of each of 33 optional parts between consecutive blocks on the same decoder, consecutive groups of a block and consecutive elements of a group, each header field alone and all-but-it; " +
-			"(b) PRNG files of 1-40 blocks, 1-4 groups, 0-40 elements (plus a few files with up to 9000 elements per group, the size class of real extracts), arbitrary UTF-8, header bounding boxes whose four corners are independent numbers (one hemisphere, left > right, bottom > top), granularity/offset/date-granularity classes, raw and zlib, shuffled field order and string table, unknown fields; decoder counts {1,2,3,5,16,32} and the degenerate 0 / -1 (one decoder), nil context, chunked readers; both zlib back-ends (cgo/czlib and pure Go). " +
+			"(b) PRNG files of 1-40 blocks, 1-4 groups, 0-40 elements (plus a few files with up to 9000 elements per group, the size class of real extracts), arbitrary UTF-8, header bounding boxes whose four corners are independent numbers (one hemisphere, left > right, bottom > top), granularity/offset/date-granularity classes, raw and zlib, shuffled field order and string table, unknown fields; a fifth of the files with unusual-but-valid values (ids zero / negative / beyond 2^40 / repeated / unsorted, versions uids changesets at the ends of their types, strings of up to 70 kB, 300 tags, 2000 refs, 3000 members, duplicate tag keys) and a tenth in which every block is followed by a structural twin with different values or by an exact copy; decoder counts {1,2,3,5,16,32} and the degenerate 0 / -1 (one decoder), nil context, chunked readers; both zlib back-ends (cgo/czlib and pure Go). " +
 			"A signature is the presence-bit/parameter-class vector of a block with >=1 element, or the toggled part and level; distinct_nontrivial counts distinct signatures.",
 		Assumptions: []string{
 			"an absent timestamp may be delivered as Go's zero time or as the Unix epoch (both are zero metadata); generated present timestamps are never 0",
